@@ -44,6 +44,12 @@ def cfgOf (blockNames spanNames : List String) : Option Document.Cfg :=
 /-- token lists while an `HtmlRenderer` is active (regenerated from /repo) -/
 def html : Option Document.Cfg := cfgOf Gen.RenderMaps.htmlBlockTokens Gen.RenderMaps.htmlSpanTokens
 
+/-- token lists while a `MarkdownRenderer` is active (regenerated from /repo) -/
+def markdown : Option Document.Cfg := cfgOf Gen.RenderMaps.markdownBlockTokens Gen.RenderMaps.markdownSpanTokens
+
+/-- the default token lists (no renderer active, or `AstRenderer`) -/
+def default : Option Document.Cfg := cfgOf Gen.RenderMaps.defaultBlockTokens Gen.RenderMaps.defaultSpanTokens
+
 /-- `HtmlRenderer(**opts).render(Document(text))`: `none` if the configuration is unknown to the model
     or the model raises -/
 def renderHtml (opts : Html.Opts) (gas : Nat) (text : Str) : Option Str :=
